@@ -208,7 +208,7 @@ def run_unit(name, tier="quick", config="A", opts=None, keep=None):
         res["solver_seconds"] = (tms.get("smt", {}) or {}).get("total", 0) / 1000.0 if tms else None
         res["verus_functions_verified"] = vr.get("verified")
         diags, junk = parse_diagnostics(err)
-        undec, failed, rejected_in = [], [], []
+        undec, failed, rejected_in, auto_items = [], [], [], []
         for dg in diags:
             if dg.get("level") != "error":
                 continue
@@ -266,9 +266,28 @@ def run_unit(name, tier="quick", config="A", opts=None, keep=None):
                 # rejected inside a repo function (its shape changed under the contract overlay): remember the
                 # function so that `check` can ask the directed search for a concrete failing input
                 fnr = _fn_at(pl, asm.fn_ranges)
+                mm = re.match(r"cannot find (?:value|type) `(\w+)` in this scope", msg)
+                if mm and fnr:
+                    mod = fnr[2]
+                    # the item of that name in the function's module (or an enclosing one)
+                    while "::" in mod:
+                        mod = mod.rsplit("::", 1)[0]
+                        cand = mod + "::" + mm.group(1)
+                        if cand in table and table[cand].kind in ("const", "static", "type"):
+                            auto_items.append(cand)
+                            break
                 if fnr:
                     rejected_in.append(failed_obligation(fnr[2], "other", "unit rejected by Verus: " + msg[:200],
                                                          location="%s:%d" % (fnr[3], fnr[4])))
+        new_items = [a for a in auto_items if a not in opts.get("extra_items", [])]
+        if new_items and len(opts.get("extra_items", [])) < 12:
+            # the source now uses crate constants the overlay never listed: include them and run again
+            o2 = dict(opts, extra_items=list(opts.get("extra_items", [])) + sorted(set(new_items)))
+            if not keep:
+                rm_rf(d)
+            r2 = run_unit(name, tier, config, o2, keep)
+            r2.setdefault("auto_included_items", sorted(set(o2["extra_items"])))
+            return r2
         if rc == -9:
             undec.append("verus timed out")
         if not vr and not failed and not undec:
